@@ -103,6 +103,9 @@ func (o Op) boolean(k string) bool {
 }
 func (o Op) int(k string) int {
 	switch v := o[k].(type) {
+	case json.Number:
+		n, _ := v.Int64()
+		return int(n)
 	case float64:
 		return int(v)
 	case string:
